@@ -36,7 +36,7 @@ func newReport(cmd string) *Report {
 
 func (r *Report) viol(key string, detail interface{}) {
 	r.NViol++
-	if len(r.Violations) < 200 {
+	if len(r.Violations) < 5000 {
 		r.Violations = append(r.Violations, Violation{key, detail})
 	}
 }
